@@ -1,5 +1,6 @@
 """C18 — Completions list what is in scope (sibling agreement of the two scope walks, visibility filter, replacement range)."""
 from lib import flow as FL
+from lib import pcache
 from lib.facts import callee, callee_def, op_local, op_place
 from rules import c05
 
@@ -9,7 +10,7 @@ META = {
     "rule": "X1 Resolver::values_names_in_scope (what completion offers) and Resolver::resolve_name (what a name resolves to) agree: same "
             "scope order, same ModuleDefId -> ResolveResult table, first occurrence wins; X2 the members offered after `module.` are "
             "filtered on visibility; X3 the replacement range is the identifier/keyword token under the cursor or the empty range at the "
-            "cursor. One obligation per table row / clause.",
+            "cursor. One obligation per table row / clause. X4 common fields are the intersection; X5/X6 imports are offered under the name they bind; X7 the visibility a constructor is declared with depends on the `opaque` modifier of its type.",
     "explanation": "If the enumeration offered by completion and the lookup used by go-to-definition are two implementations of one "
                    "scope walk, then every offered name resolves and nothing resolvable is left out only if the two agree on order and "
                    "on the kinds of module items they treat as values. That agreement is decided from the MIR; the exact set for every "
@@ -104,6 +105,7 @@ def run(F, res, tier):
     res.ob("X1", "first-occurrence-wins", "ScopeNames::add keeps the first definition of a name (inner scopes are added first, so inner shadows outer, as in lookup)",
            first_wins, where=add.loc(), how="insert only into a vacant entry: %s" % first_wins)
     extra_rules(F, res)
+    opaque_constructors_private(F, res)
     # ---- X2
     cd = F.fn("ide::ide::completion::complete_dot")
     fs = [F.fns[p] for p in F.with_closures(cd.path)]
@@ -177,6 +179,19 @@ def extra_rules(F, res):
                 if c.endswith("::eq") and "PartialEq" in c:
                     if tt["dest"]["l"] == 0 or dc.origin(0).get("bb") == bb:
                         eq_cmp = True
+            # the same test written with a combinator: get(k).map_or(false, |o| o == ty) / .is_some_and(|o| o == ty) / get(k) == Some(ty)
+            for bb, tt in cf.calls():
+                c = FL.short(callee(tt) or callee_def(tt) or "")
+                if tt["dest"]["l"] != 0 and dc.origin(0).get("bb") != bb:
+                    continue
+                inner_eq = any("PartialEq" in (callee(t2) or callee_def(t2) or "") and (callee(t2) or callee_def(t2) or "").endswith("::eq")
+                               for cp in F.closures_of(cf.path) for _, t2 in F.fns[cp].calls())
+                if c == "Option::map_or" and str((tt["args"][1].get("k") or {}).get("bits")) == "0" and inner_eq:
+                    none_false = eq_cmp = True
+                if c == "Option::is_some_and" and inner_eq:
+                    none_false = eq_cmp = True
+                if c.endswith("::eq") and any("Option" in (cf.local_ty(op_local(a)) or "") for a in tt["args"] if op_local(a) is not None):
+                    none_false = eq_cmp = True
             ok = none_false and eq_cmp
             why = "a field missing from another constructor is dropped: %s; otherwise kept only if the types are equal: %s" % (none_false, eq_cmp)
     res.ob("X4", "common-fields-intersection", "the fields offered after `value.` are those every constructor of the type has, with the same type (intersection, not union)",
@@ -290,3 +305,49 @@ def labels_are_scope_names(F, res, rule="X6"):
         res.ob(rule, "scope-name/%d" % ordn, "the item pushed here for a name in scope carries that name as its label and as the text it inserts",
                all(ok.values()), where=fn.loc(t["ln"]), how="%s; label from the scope name: %s, inserted text from the scope name: %s" % (how, ok["label"], ok["replace"]))
     res.floor("items pushed in the names-in-scope loop", n, 4)
+
+
+def opaque_constructors_private(F, res, rule="X7"):
+    """X7: `pub opaque type T { C }` exports T but not C. The parser accepts the modifier (engine P: a site consumes OPAQUE_KW);
+    the visibility a constructor is declared with in the module scope (what `module.` completion and imports filter on) must
+    depend on it: the scope reads it from fields of AdtData, and the lowering must fill one of those from an AST accessor that
+    looks for the `opaque` token."""
+    import json as _json
+    R = pcache.results(F)
+    accepts = sorted(k for k, v in R["consume_sites"].items() if "OPAQUE_KW" in (v.get("kinds") or []))
+    res.floor("parser sites that consume the `opaque` modifier", len(accepts), 1)
+    readers = set()
+    for p, g in F.fns.items():
+        if "syntax::ast" in p and g.blocks and "OPAQUE_KW" in _json.dumps(g.d):
+            readers.add(FL.short(p.split("::{closure")[0]))
+    from lib import inline as IN
+    sc0 = F.fn("ide::def::scope::module_scope_with_map_query")
+    # helpers of the scope module (`scope.declare(name, def, visibility)`) are part of the query
+    sc = IN.inlined(F, sc0, lambda c: c.startswith("ide::def::scope::") and "{closure" not in c, depth=1)
+    d = FL.Defs(sc)
+    feeds = None
+    where = sc0.loc()
+    for b, i, s in sc.stmts():
+        rv = s.get("rv")
+        if rv and rv["k"] == "agg" and rv.get("agg") == "tuple" and len(rv["ops"]) == 2:
+            o = d.origin_op(rv["ops"][0])
+            if o.get("k") == "agg" and o["rv"].get("adt", "").endswith("ModuleDefId") and o["rv"].get("variant") == "VariantId" and \
+                    "Visibility" in (sc.local_ty(op_local(rv["ops"][1])) or ""):
+                feeds = FL.fields_feeding(F, sc, d, rv["ops"][1], "AdtData", use_bb=b)
+                where = sc.loc(s["ln"])
+    lw = F.fn("ide::def::lower::LowerCtx::lower_custom_type")
+    dl = FL.Defs(lw)
+    from_opaque = {}
+    for b, i, s in lw.stmts():
+        rv = s.get("rv")
+        if rv and rv["k"] == "agg" and rv.get("adt", "").endswith("AdtData"):
+            for n, o in zip(rv["fields"], rv["ops"]):
+                calls = FL.depends(F, lw, dl, o, use_bb=b)["calls"]
+                if calls & readers:
+                    from_opaque[n] = sorted(calls & readers)
+    ok = feeds is not None and bool(set(feeds) & set(from_opaque))
+    res.ob(rule, "opaque/constructors-not-exported", "the visibility a constructor is declared with depends on the `opaque` modifier of its type "
+           "(constructors of a `pub opaque type` are private to their module: never offered after `module.`, never importable)",
+           ok, where=where,
+           how="constructor visibility is computed from AdtData fields %s; fields filled from an accessor that looks for `opaque`: %s; such "
+               "accessors in the AST: %s" % (sorted(feeds) if feeds is not None else None, from_opaque, sorted(readers)))
